@@ -129,6 +129,19 @@ def check_case(ctx: Ctx, c: Dict[str, Any], files: bool = False, scratch: str = 
             got = guarded(f"{lvl}.{nm}", lambda: pick(getattr(obj, nm)()), level=lvl, attr=nm)
             if got is not None:
                 cmp(f"{lvl}.{nm}()", torch.as_tensor(got).flatten(), exp, tl, level=lvl, attr=nm)
+    # redundant but consistent arguments: size AND shape, origin AND center - the same grid; inconsistent ones are refused
+    for how, mk in (("size+shape", lambda: Grid(size=n, shape=tuple(reversed(n)), origin=origin, spacing=spacing, direction=direction)),
+                    ("origin+center", lambda: Grid(size=n, origin=origin, center=center, spacing=spacing, direction=direction)),
+                    ("shape only", lambda: Grid(shape=tuple(reversed(n)), origin=origin, spacing=spacing, direction=direction))):
+        g = guarded("Grid(" + how + ")", mk, how=how)
+        if g is not None:
+            cmp("Grid(" + how + ").index_to_world", g.index_to_world(pts), phys, tol32, how=how)
+    if max(abs(a_ - b_) for a_, b_ in zip(origin, center)) > 1e-3:
+        try:
+            Grid(size=n, origin=center, center=center, spacing=spacing, direction=direction)
+            ctx.violation(dict(op="Grid(origin+center)", what="inconsistent accepted", **sig0), "Grid() accepts an origin and a center that contradict each other", c)
+        except Exception:
+            pass
     # flattened / nested direction, from_seq/from_numpy with origin flag
     g = guarded("Grid.from_seq", lambda: Grid.from_seq([float(v) for v in n] + spacing + origin + direction, origin=True))
     if g is not None:
